@@ -59,7 +59,8 @@ def record_and_judge(ctx: Ctx, jobs, *, torn: int, reader_every: int, tag: str, 
             args.append({"root": byjob[lj]["root"], "events": byjob[lj]["events"], "fmt": job["fmt"],
                          "compression": job["compression"], "hashes": job["hashes"], "torn": torn,
                          "reader_every": reader_every if job["fmt"] != "tfrec" else max(reader_every, 3),
-                         "final_checks": job.get("final_checks"), "recover_every": job.get("recover_every", 0)})
+                         "final_checks": job.get("final_checks"), "recover_every": job.get("recover_every", 0),
+                         "slow_every": job.get("slow_every", 0)})
             owners.append(gj)
     outs = H.run_histories(args, fn=crash.judge_job)
     return {gj: o for gj, o in zip(owners, outs)}, driver
@@ -129,6 +130,7 @@ def run(ctx: Ctx) -> None:
         jobs += _jobs_from_behaviours(behs, targets)
     for j in jobs:
         j["recover_every"] = 9 if q else 4
+        j["slow_every"] = 3 if q else 1
     ctx.log(f"{len(jobs)} histories to record under strace")
     try:
         outs, driver = record_and_judge(ctx, jobs, torn=2 if q else 6, reader_every=1, tag="a",
@@ -180,6 +182,7 @@ def judge_crash_outputs(ctx: Ctx, jobs, outs, driver, prop_preds=("C06", "R06"))
     ctx.cov["projected_states_judged_by_tlc"] = len(states)
     ctx.cov["real_reader_runs_on_crash_states"] = sum(1 for s in states if "readback" in s)
     ctx.cov["recovery_sessions_on_crash_states"] = sum(outs[gj].get("n_recovered", 0) for gj in range(len(jobs)))
+    ctx.cov["slow_reader_mixed_snapshots"] = sum(outs[gj].get("n_slow_reads", 0) for gj in range(len(jobs)))
     ctx.log(f"{len(jobs)} recorded histories: {n_eff} crash points between effects + {n_torn} torn-write points; "
             f"{len(states)} projected states judged by TLC, {n_false} predicate failures")
     if states:
